@@ -173,6 +173,7 @@ import (
 	"bufio"
 	"bytes"
 	"encoding/json"
+	"errors"
 	"fmt"
 	"os"
 	"reflect"
@@ -198,6 +199,9 @@ func vfnB(xs ...int) { _ = xs }
 
 var chA = make(chan int, 1)
 var chB = make(chan int, 2)
+
+var errA = errors.New("error A")
+var errB = errors.New("error B")
 
 type jfield struct {
 	name     string
